@@ -42,7 +42,7 @@ def make_codegen(kind):
 
 
 def compile_set(texts, requested, codegen='json', dialect='smiV1Relaxed', stubs=None,
-                parser=None, compiler_hook=None, **opts):
+                parser=None, compiler_hook=None, via_files=False, **opts):
     """Run the real MibCompiler over in-memory texts (+ base fixtures).
 
     Returns (results, written) where written maps module name -> text handed to the writer
@@ -62,11 +62,28 @@ def compile_set(texts, requested, codegen='json', dialect='smiV1Relaxed', stubs=
     c = MibCompiler(parser or make_parser(dialect),
                     codegen if not isinstance(codegen, str) else make_codegen(codegen),
                     CallbackWriter(put))
-    c.addSources(CallbackReader(lambda name, ctx: allt.get(name)))
+    tmpd = None
+    if via_files:
+        # the texts go through a real directory and the real FileReader, byte for byte as they are
+        import tempfile
+        from pysmi.reader import FileReader
+        from vlib import env
+        tmpd = tempfile.mkdtemp(prefix='verif-src-', dir=env.scratch_root())
+        for name, text in allt.items():
+            with open(os.path.join(tmpd, name), 'wb') as f:
+                f.write(text.encode('utf-8'))
+        c.addSources(FileReader(tmpd))
+    else:
+        c.addSources(CallbackReader(lambda name, ctx: allt.get(name)))
     c.addSearchers(StubSearcher(*(stubs if stubs is not None else BASE_STUBS + HOME_STUBS)))
     if compiler_hook:
         compiler_hook(c)
-    res = c.compile(*requested, **opts)
+    try:
+        res = c.compile(*requested, **opts)
+    finally:
+        if tmpd:
+            import shutil
+            shutil.rmtree(tmpd, ignore_errors=True)
     return res, written
 
 
